@@ -260,6 +260,7 @@ _amend("C17", "text", "(one obligation per entry, all discharged).", "(one oblig
 _amend("C02", "text", "(R02.1-R02.9, DESIGN.md §4 C02; R02.9 reports one known finding:", "(R02.1-R02.10, DESIGN.md §4 C02; R02.10 reports a known finding: bindings of a dissolved else-block clash where names are kept; R02.9 reports one known finding:")
 _amend("C03", "text", "(R03.1-R03.10 incl. R03.5c-e, DESIGN.md §4 C03):", "(R03.1-R03.11 incl. R03.5c-e, DESIGN.md §4 C03):")
 _amend("C03", "text", "Decides ten local clauses", "Decides eleven local clauses")
+_amend("C11", "text", "(R11.1-R11.7, DESIGN.md §4 C11;", "(R11.1-R11.8, DESIGN.md §4 C11; R11.8 reports a known finding in the pinned dependency: `+` in a data URI payload is decoded as a space;")
 
 NOT_APPLICABLE = {
  "C18": "DataURI/Mediatype correctness is about decoded byte values and length comparisons between encodings; no structural clause separates a right "
